@@ -56,7 +56,7 @@ func numTok(v interface{}) (string, bool) {
 	case uint64:
 		return fmt.Sprintf("#u64:%v", n), true
 	case json.Number:
-		return "#jn:" + hx(string(n)), true
+		return "#jn:" + string(n), true
 	}
 	return "", false
 }
@@ -228,8 +228,7 @@ func decNum(t string) (interface{}, error) {
 		_, err := fmt.Sscanf(txt, "%d", &n)
 		return n, err
 	case "jn":
-		b, err := hex.DecodeString(txt)
-		return json.Number(string(b)), err
+		return json.Number(txt), nil
 	}
 	return nil, fmt.Errorf("bad number tag %q", tag)
 }
